@@ -11,6 +11,7 @@ def check(rep, args):
     samples = []
     classes = set()
     notes = []
+    broken = []
     for cfg in configs:
         results = witness.run_corpus(cfg, strict=args.strict)
         for r in results:
@@ -19,9 +20,9 @@ def check(rep, args):
             where = "witness/%s [%s]" % (r["file"], cfg)
             rep.inst("W.pair", r["file"], config=cfg, verdict=r["verdict"])
             if r["verdict"] == "twin-broken":
-                raise common.Infra(
-                    "%s: the well-typed twin no longer compiles (corpus needs maintenance): %s"
-                    % (where, r["twin_errors"][:2]))
+                broken.append("%s: the well-typed twin no longer compiles (corpus needs maintenance): %s"
+                              % (where, r["twin_errors"][:2]))
+                continue
             if r["verdict"] == "misuse-compiles":
                 rep.violate("C10.W", "misuse-compiles|%s" % r["file"], where,
                             "misuse program type-checks: class '%s', entry point '%s'"
@@ -37,6 +38,11 @@ def check(rep, args):
                 samples.append({"pair": r["file"], "class": r["class"], "entry": r["entry"],
                                 "misuse_rejected_with": sorted({e["code"] or "?" for e in r["misuse_errors"]}),
                                 "twin": "compiles"})
+    if broken:
+        # a violation found elsewhere in the corpus is still a violation; with none, the corpus cannot vouch for the tree
+        if not rep.violations:
+            raise common.Infra(broken[0])
+        notes.extend(broken)
     rep.floor("W.pairs", total // len(configs), 2, "witness pairs")
     cov = {
         "obligations": total,
